@@ -593,6 +593,8 @@ public:
 			mCapacity = hashTraits.CalcCapacity(size_t{1} << logBucketCount, bucketMaxItemCount);
 			if (mCapacity >= mCount)
 				break;
+			if (logBucketCount >= sizeof(size_t) * 8 - 1)
+				throw std::length_error("Invalid bucket count");
 			++logBucketCount;
 		}
 		mBuckets = Buckets::Create(GetMemManager(), logBucketCount, nullptr);
@@ -719,6 +721,8 @@ public:
 				bucketMaxItemCount);
 			if (newCapacity >= capacity)
 				break;
+			if (newLogBucketCount >= sizeof(size_t) * 8 - 1)
+				throw std::length_error("Invalid bucket count");
 			++newLogBucketCount;
 		}
 		Buckets* newBuckets = Buckets::Create(GetMemManager(), newLogBucketCount,
@@ -1155,6 +1159,8 @@ private:
 				bucketMaxItemCount);
 			if (newCapacity > mCount)
 				break;
+			if (newLogBucketCount >= sizeof(size_t) * 8 - 1)
+				throw std::length_error("Invalid bucket count");
 			++newLogBucketCount;	// the table may be overloaded (overloadIfCannotGrow)
 		}
 		bool hasBuckets = (mBuckets != nullptr);
